@@ -387,7 +387,7 @@ func cfg(mode string, nfree, nrand, minw, maxw int, alpha string, mc bool) strin
 }
 
 func (d Driver) Run(c *core.Ctx) error {
-	c.Rule = "scenario = (item list over the alphabet of spec/KnuthPlass.tla obeying the item builder's structural constraints and ending in Glue(0,Inf,0) Penalty(-Inf), line width), executed under 4 scale embeddings; the spec prints all breakings judged. non-trivial = at least two breakings exist and either some breaking is surely feasible (optimisation is a real choice) or none is and one can be shrunk to fit (relaxation clause applies); distinct by (items,width). Recorded calls (random generator, text layouts) are counted separately in trace_calls"
+	c.Rule = "scenario = (item list, line width) generated by TLC from spec/KnuthPlass.tla: every list over the alphabet with <= 4 (thorough 5) free items, random lists of 5..9 free items, and paragraph-shaped lists of 9/11 words; all obey the item builder's structural constraints and end in Glue(0,Inf,0) Penalty(-Inf); each is executed under 4 scale embeddings and judged against the spec's table of judged breakings. non-trivial = the spec judged at least two breakings for it (the breakings without a surely infeasible line; all breakings if there is none) and either one of them is surely feasible (optimisation is a real choice) or none is and one can be shrunk to fit (relaxation clause applies); distinct by (items,width). Recorded calls (random generator, text layouts) are counted separately in trace_calls"
 	c.Assumptions = []string{
 		"published definitions with the constants text/linebreak.go documents (Tolerance 2, line/flagged/fitness demerits 10/100/100, Infinity 1000, looseness 0)",
 		"feasibility is three-valued with epsilon 1e-6: lines whose exact ratio is -1 or Tolerance, exactly fitting lines without stretch or shrink, and short lines of negative total stretch neither oblige nor excuse (float sums)",
